@@ -140,6 +140,22 @@ class CurProc(plumpy.Process):
                 self.kids.append(child)
                 await child.step_until_terminated()
                 sample(self, 'step', 'seg%d:after-inline' % i)
+            elif kind == 'orphan':
+                # a fire-and-forget process that will wait for ever and that nobody refers to any more (not even its task: asyncio
+                # holds tasks weakly) ...
+                name = '%s.orphan%d' % (self.raw_inputs['name'], i)
+                orphan = CurProc(inputs={'name': name, 'script': {'segments': [[['sample', 'o'], ['wait']], [['sample', 'never']]]}}, loop=self.loop)
+                PROCS.pop(name, None)
+                self.loop.create_task(orphan.step_until_terminated())
+                del orphan
+                for _ in range(3):
+                    await asyncio.sleep(0)
+                # ... is collected while this step is running: its pending step is finalised here, in this step's context
+                import gc
+                gc.collect()
+                sample(self, 'step', 'seg%d:after-collect' % i)
+                await asyncio.sleep(0)
+                sample(self, 'step', 'seg%d:after-collect-await' % i)
             elif kind == 'await_children':
                 for child in self.kids:
                     if not child.has_terminated():
